@@ -10,7 +10,7 @@ Separate Extraction
   ix_panic_pause ix_panic_unpause ix_panic_unpause_permissionless is_protocol_paused mkP
   ir_validate calc_interest_rate mpc legacy_curve
   bstep brun la_empty mkBW accrual_state_changes remaining_deposit_capacity pre_fee_deposit_amount
-  calculate_fee get_epoch_fee pre_fee_deposit_amount_at calculate_epoch_fee mkFS urun hstep hrun fixed_feed mkHW health_components check_init_health
+  calculate_fee get_epoch_fee pre_fee_deposit_amount_at calculate_epoch_fee fund_emissions mkFS urun hstep hrun fixed_feed mkHW health_components check_init_health
   i80_from_i128_checked adjust_i128 adjust_i64 adjust_u64 collateral_to_liquidity_from_scaled
   liquidity_to_collateral_from_scaled liq_to_col_ratio col_to_liq_ratio scale_supplies
   convert_decimals u68f60_to_i80f48 k_total_supply k_scaled_supplies k_collateral_to_liquidity
